@@ -150,6 +150,35 @@ BUILDERS = {'pda_small': enc.build_pda, 'dfa': enc.build_dfa, 'dfa2': enc.build_
             'pda': enc.build_pda, 'tm': enc.build_tm, 'cfg': enc.build_cfg, 'word': lambda x: x, 'state': lambda x: x}
 
 
+def sibling_and_renamed(kind, x, rng):
+    """(sibling, renamed): `sibling` has the same rules / transitions as x but another start variable / initial state, so its
+    printed form may coincide with x's although it is a different object; `renamed` is x under a bijective renaming of variables /
+    states (another printed form, same language)"""
+    if kind == 'cfg':
+        others = [v for v in x['V'] if v != x['S']]
+        free = [c for c in 'ZYXWVUTSRQPONMLKJIHGFEDCBA' if c not in x['V'] and c not in x['Sigma']]
+        if not others or len(free) < len(x['V']) or any(len(v) != 1 for v in x['V']):
+            return None
+        m = dict(zip(x['V'], free))
+        ren = lambda t: [t[0], m[t[1]]] if t[0] == 'v' else list(t)
+        return (dict(x, S=rng.choice(others)),
+                dict(x, V=[m[v] for v in x['V']], S=m[x['S']], R=[[m[l], i, [ren(t) for t in r]] for l, i, r in x['R']]))
+    if kind in ('dfa', 'nfa', 'pda'):
+        others = [q for q in x['Q'] if q != x['q0']]
+        if not others:
+            return None
+        f = lambda q: 'z_' + q
+        y = dict(x, Q=[f(q) for q in x['Q']], q0=f(x['q0']), F=[f(q) for q in x['F']])
+        if kind == 'dfa':
+            y['delta'] = [[f(p), a, f(q)] for p, a, q in x['delta']]
+        elif kind == 'nfa':
+            y['delta'] = [[f(p), a, [f(q) for q in T]] for p, a, T in x['delta']]
+        else:
+            y['delta'] = [[f(p), a, u, [[f(q), v] for q, v in T]] for p, a, u, T in x['delta']]
+        return dict(x, q0=rng.choice(others)), y
+    return None
+
+
 def history(rng):
     """a random prefix of other library calls, including ones that touch process-wide state"""
     for _ in range(rng.randint(0, 4)):
@@ -194,6 +223,12 @@ def judge(ctx, c, answers):
     kinds, f = table[c['op']]
     GambaTools.pda_epsilon_closure_max_iterations = 30
     try:
+        # a related object queried first: same rules / transitions, other start (its printed form may coincide with the argument's)
+        sr = None
+        if c['op'].endswith('accepts_word') or c['op'].endswith('words_up_to_n'):
+            sr = sibling_and_renamed(kinds[0], c['args'][kinds[0]], random.Random(c['seed']))
+        if sr is not None:
+            call(f, *[BUILDERS[k](dict(c['args'], **{kinds[0]: sr[0]})[k]) for k in kinds], limit=20)
         args = [BUILDERS[k](c['args'][k]) for k in kinds]
         before = [snap(a) for a in args]
         if c['op'] in ('nfa_union', 'nfa_repetition'):
@@ -209,6 +244,13 @@ def judge(ctx, c, answers):
             ctx.record('%s/%s' % (c['op'], core.digest(c['args'])), 'ERR:' + str(r1.get('err')))
             return
         v1 = canon_result(r1['ok'])
+        if sr is not None:
+            rr = call(f, *[BUILDERS[k](dict(c['args'], **{kinds[0]: sr[1]})[k]) for k in kinds], limit=20)
+            vr = canon_result(rr['ok']) if 'ok' in rr else 'ERR'
+            if vr != v1:
+                ctx.violation('result-depends-on-related-earlier-call', {'case': c, 'queried_first': sr[0], 'result': str(v1)[:300],
+                                                                         'renamed_copy': sr[1], 'result_on_renamed_copy': str(vr)[:300]})
+            ctx.count('related-first')
         named = c['op'] not in ('nfa_repetition', 'nfa_union', 'regexp_to_nfa')     # generated names depend on the generator state
         # second call on equal (fresh) arguments
         args2 = [BUILDERS[k](c['args'][k]) for k in kinds]
